@@ -267,9 +267,56 @@ def log_normalizer_spec(T, P, w):
     return ra.log2pi(T, ra.Fraction(dim, 2)) - ra.formal_log(T, det) * ra.Fraction(1, 2) - quad_min * ra.Fraction(1, 2)
 
 
+REPLAY_HEAD = """import sys
+from collections import OrderedDict
+import numpy as np
+import funsor
+import funsor.ops as ops
+from funsor import Tensor, Variable, Real, Reals, Bint
+from funsor.gaussian import Gaussian, _compress_rank
+funsor.set_backend("numpy")
+V = %(vals)r
+A = {k: np.array(v, dtype=float) for k, v in V.items()}
+
+def dense(P, w):
+    return P @ P.T, P @ w, -0.5 * float(w @ w)
+
+def quad(x, P, w):
+    r = x @ P - w
+    return -0.5 * float(r @ r)
+
+def lognorm(P, w):
+    L, eta, c = dense(P, w)
+    n = P.shape[0]
+    return 0.5 * n * np.log(2 * np.pi) - 0.5 * np.log(np.linalg.det(L)) + 0.5 * float(eta @ np.linalg.solve(L, eta)) + c
+
+def report(got, want, what):
+    ok = np.allclose(np.asarray(got, dtype=float), np.asarray(want, dtype=float), rtol=1e-6, atol=1e-8)
+    print(what, 'funsor:', np.asarray(got).tolist(), 'closed form:', np.asarray(want).tolist(), 'OK' if ok else 'MISMATCH')
+    return ok
+"""
+
+
+class NativeReplay:
+    """replay(): the numeric point at which the exact back end confirmed a refutation is turned into a stand-alone script that
+    calls the REAL funsor code on those numbers and compares with a dense numpy closed form (exit 1 = reproduced)."""
+
+    def replay(self, ctx, model, st, clause):
+        T = getattr(ctx, "T", None)
+        if T is None or not hasattr(self, "native"):
+            return None
+        vals = ra.numeric_values(T, ctx.a)
+        if vals is None:
+            return None
+        body = self.native(ctx, st)
+        if body is None:
+            return None
+        return REPLAY_HEAD % dict(vals=vals) + body
+
+
 # ==================================================================================================
 @register
-class CompressRankExact(Contract):
+class CompressRankExact(NativeReplay, Contract):
     """_compress_rank(white_vec, prec_sqrt, assume_full_rank): returns (wc, Pc, shift) with Pc square (dim x dim) and
         -1/2 |x P - w|^2  ==  -1/2 |x Pc - wc|^2 + shift      for EVERY real x, w, P
     on both branches (Cholesky re-factorisation when assume_full_rank, reduced QR otherwise, every QR sign pattern).
@@ -298,6 +345,15 @@ class CompressRankExact(Contract):
         yield "dim=1,rank=2,cholesky,batch=2", (1, 2, True, None, (2,))
         yield "dim=1,rank=2,qr,batch=2", (1, 2, False, (1,), (2,))
 
+    def native(self, ctx, st):
+        dim, rank, full, signs, batch = st
+        return """wc, Pc, shift = _compress_rank(A['w'], A['P'], assume_full_rank=%r)
+ok = True
+for b in np.ndindex(*%r):
+    ok = report(quad(A['x'], Pc[b], wc[b]) + float(np.asarray(shift)[b]), quad(A['x'], A['P'][b], A['w'][b]), '_compress_rank density at x, batch %%s:' %% (b,)) and ok
+sys.exit(0 if ok else 1)
+""" % (full, tuple(batch))
+
     def build(self, p, st):
         dim, rank, full, signs, batch = st
         T, a = mk_tower(P=batch + (dim, rank), w=batch + (rank,), x=(dim,))
@@ -323,7 +379,7 @@ class CompressRankExact(Contract):
 
 # ==================================================================================================
 @register
-class LogNormalizerExact(Contract):
+class LogNormalizerExact(NativeReplay, Contract):
     """Gaussian._log_normalizer: for prec_sqrt of full row rank (rank >= dim) the value is
         log integral exp(-1/2 |x P - w|^2) dx  =  dim/2 log(2 pi) - 1/2 log det(P P') - 1/2 min_x |x P - w|^2
     (the minimum is 0 when P is square), for every real w, P.  The properties it reads (_precision, _precision_chol, _info_vec)
@@ -348,6 +404,18 @@ class LogNormalizerExact(Contract):
                     continue
                 yield "dim=%d,rank=%d" % (dim, rank), (dim, rank, ())
         yield "dim=1,rank=2,batch=2", (1, 2, (2,))
+
+    def native(self, ctx, st):
+        dim, rank, batch = st
+        return """inputs = OrderedDict([('i%%d' %% k, Bint[n]) for k, n in enumerate(%r)] + [('x', Reals[%d])])
+with Gaussian.set_compression_threshold(1e9):
+    g = Gaussian(white_vec=A['w'], prec_sqrt=A['P'], inputs=inputs)
+got = g.log_normalizer.data
+ok = True
+for b in np.ndindex(*%r):
+    ok = report(np.asarray(got)[b], lognorm(A['P'][b], A['w'][b]), 'log_normalizer, batch %%s:' %% (b,)) and ok
+sys.exit(0 if ok else 1)
+""" % (tuple(batch), dim, tuple(batch))
 
     def build(self, p, st):
         dim, rank, batch = st
@@ -384,7 +452,7 @@ def marginal_spec(T, P, w, keep_rows, red_rows, xa):
 
 
 @register
-class MarginalizeExact(Contract):
+class MarginalizeExact(NativeReplay, Contract):
     """Gaussian.eager_reduce(ops.logaddexp, reduced real inputs) -- with the real _split_real_inputs and the real
     _marginalize_after_split --: the result is  Tensor(c) + Gaussian(w', P', remaining inputs)  with, for EVERY real xa, w, P,
         c - 1/2 |xa P' - w'|^2  ==  log integral exp(-1/2 |[xa xb] P - w|^2) d xb
@@ -404,6 +472,37 @@ class MarginalizeExact(Contract):
         ("kept and reduced rows swapped", "            prec_sqrt_a = self.prec_sqrt[..., a, :]\n            prec_sqrt_b = self.prec_sqrt[..., b, :]", "            prec_sqrt_a = self.prec_sqrt[..., b, :]\n            prec_sqrt_b = self.prec_sqrt[..., a, :]"),
         ("factor of the whole precision instead of the reduced block", "            precision_chol_b = ops.cholesky(_mmt(prec_sqrt_b))  # assume full rank", "            precision_chol_b = ops.cholesky(_mmt(self.prec_sqrt))[..., : prec_sqrt_b.shape[-2], : prec_sqrt_b.shape[-2]]"),
     )
+
+    def native(self, ctx, st):
+        lay, red, rank, mode = st
+        if mode != "partial":
+            return None
+        return """lay = %r
+red = %r
+inputs = OrderedDict((k, Reals[n]) for k, n in lay)
+with Gaussian.set_compression_threshold(1e9):
+    g = Gaussian(white_vec=A['w'], prec_sqrt=A['P'], inputs=inputs)
+    r = g.reduce(ops.logaddexp, frozenset(red))
+off, tot = {}, 0
+for k, n in lay:
+    off[k] = (tot, tot + n); tot += n
+keep = [k for k, n in lay if k not in red]
+pt, pos = {}, 0
+for k in keep:
+    n = off[k][1] - off[k][0]
+    pt[k] = Tensor(A['xa'][pos:pos + n]); pos += n
+got = r(**pt)
+got = float(np.asarray(got.data))
+# closed form: integrate the reduced block out of the dense form
+L, eta, c = dense(A['P'], A['w'])
+ia = np.concatenate([np.arange(*off[k]) for k in keep]).astype(int)
+ib = np.concatenate([np.arange(*off[k]) for k, n in lay if k in red]).astype(int)
+xa = A['xa'][:len(ia)]
+Lbb, Lba = L[np.ix_(ib, ib)], L[np.ix_(ib, ia)]
+eb = eta[ib] - Lba @ xa
+want = -0.5 * float(xa @ L[np.ix_(ia, ia)] @ xa) + float(xa @ eta[ia]) + c + 0.5 * len(ib) * np.log(2 * np.pi) - 0.5 * np.log(np.linalg.det(Lbb)) + 0.5 * float(eb @ np.linalg.solve(Lbb, eb))
+sys.exit(0 if report(got, want, 'marginal at the kept point:') else 1)
+""" % (self.LAYOUTS[lay], red)
 
     LAYOUTS = {
         "x1y1": (("x", 1), ("y", 1)),
@@ -533,7 +632,7 @@ class MarginalizeAfterSplitExact(Contract):
 
 # ==================================================================================================
 @register
-class AddGaussiansExact(Contract):
+class AddGaussiansExact(NativeReplay, Contract):
     """eager_add_gaussian_gaussian(op, lhs, rhs) -- with the real align_gaussian / BlockVector --: the result is a Gaussian
     over the union of the inputs (lhs's first, then rhs's new ones) whose density at EVERY real point is the sum of the two
     densities, each read at its own inputs' coordinates:  -1/2 |x P - w|^2 == -1/2 |x_l Pl - wl|^2 - 1/2 |x_r Pr - wr|^2.
@@ -549,6 +648,25 @@ class AddGaussiansExact(Contract):
         ("rhs not aligned to the joint layout", "    rhs_white_vec, rhs_prec_sqrt = align_gaussian(inputs, rhs, expand=True)", "    rhs_white_vec, rhs_prec_sqrt = rhs.white_vec, rhs.prec_sqrt"),
         ("white_vecs concatenated in the other order than the factors", "    white_vec = ops.cat([lhs_white_vec, rhs_white_vec], -1)", "    white_vec = ops.cat([rhs_white_vec, lhs_white_vec], -1)"),
     )
+
+    def native(self, ctx, st):
+        name, rl, rr = st
+        li, ri = self.CASES[name]
+        return """li, ri = %r, %r
+with Gaussian.set_compression_threshold(1e9):
+    g1 = Gaussian(white_vec=A['wl'], prec_sqrt=A['Pl'], inputs=OrderedDict((k, Reals[n]) for k, n in li))
+    g2 = Gaussian(white_vec=A['wr'], prec_sqrt=A['Pr'], inputs=OrderedDict((k, Reals[n]) for k, n in ri))
+    s_ = g1 + g2
+joint = OrderedDict(li); joint.update(ri)
+off, tot = {}, 0
+for k, n in joint.items():
+    off[k] = (tot, tot + n); tot += n
+pt = {k: Tensor(A['x'][off[k][0]:off[k][1]]) for k in joint}
+got = float(np.asarray(s_(**pt).data))
+xl = np.concatenate([A['x'][off[k][0]:off[k][1]] for k, n in li])
+xr = np.concatenate([A['x'][off[k][0]:off[k][1]] for k, n in ri])
+sys.exit(0 if report(got, quad(xl, A['Pl'], A['wl']) + quad(xr, A['Pr'], A['wr']), 'g1 + g2 at x:') else 1)
+""" % (li, ri)
 
     CASES = {
         "same": ((("x", 1), ("y", 1)), (("x", 1), ("y", 1))),
@@ -596,7 +714,7 @@ class AddGaussiansExact(Contract):
 
 # ==================================================================================================
 @register
-class IntegrateGaussianGaussianExact(Contract):
+class IntegrateGaussianGaussianExact(NativeReplay, Contract):
     """integrate.eager_integrate_gaussian_gaussian(log_measure, integrand, reduced_vars) with both operands Gaussian over the
     same real inputs (in equal or permuted order), all reduced -- with the real align_gaussian and the real _mean,
     _log_normalizer, _precision_chol properties --:
@@ -616,6 +734,29 @@ class IntegrateGaussianGaussianExact(Contract):
         ("trace term from the unaligned factor (seeded C13_integrate_unaligned_trace)", "(ops.triangular_solve(rhs_prec_sqrt, lhs._precision_chol) ** 2)", "(ops.triangular_solve(integrand.prec_sqrt, lhs._precision_chol) ** 2)"),
         ("trace term dropped", "            data = (-0.5) * norm * (vmv_term + trace_term)", "            data = (-0.5) * norm * vmv_term"),
     )
+
+    def native(self, ctx, st):
+        name, rl, rr = st
+        li, ri = self.CASES[name]
+        return """from funsor.integrate import Integrate
+li, ri = %r, %r
+with Gaussian.set_compression_threshold(1e9):
+    g1 = Gaussian(white_vec=A['wl'], prec_sqrt=A['Pl'], inputs=OrderedDict((k, Reals[n]) for k, n in li))
+    g2 = Gaussian(white_vec=A['wr'], prec_sqrt=A['Pr'], inputs=OrderedDict((k, Reals[n]) for k, n in ri))
+    r = Integrate(g1, g2, frozenset(Variable(k, Reals[n]) for k, n in li))
+off, tot = {}, 0
+for k, n in li:
+    off[k] = (tot, tot + n); tot += n
+Pr = np.zeros((tot, A['Pr'].shape[1]))
+pos = 0
+for k, n in ri:
+    Pr[off[k][0]:off[k][1]] = A['Pr'][pos:pos + n]; pos += n
+L, eta, c = dense(A['Pl'], A['wl'])
+mu, Sig = np.linalg.solve(L, eta), np.linalg.inv(L)
+res = mu @ Pr - A['wr']
+want = np.exp(lognorm(A['Pl'], A['wl'])) * (-0.5) * (float(res @ res) + float(np.trace(Pr.T @ Sig @ Pr)))
+sys.exit(0 if report(float(np.asarray(r.data)), want, 'Integrate(g1, g2):') else 1)
+""" % (li, ri)
 
     CASES = {
         "x1": ((("x", 1),), (("x", 1),)),
@@ -969,7 +1110,7 @@ class PlateSumExact(Contract):
 
 # ==================================================================================================
 @register
-class SubsRealExact(Contract):
+class SubsRealExact(NativeReplay, Contract):
     """Gaussian._eager_subs_real(pairs, ()) with real values: substituting values for SOME real inputs gives a Gaussian over the
     others with  -1/2 |xa P' - w'|^2 == -1/2 |[xa vb] P - w|^2  at every xa (values placed at their own inputs' offsets,
     pairs in any order); substituting ALL of them gives the Tensor of that number.  (BlockVector is the real one.)
@@ -987,6 +1128,24 @@ class SubsRealExact(Contract):
     )
 
     LAY = {"x1y1": (("x", 1), ("y", 1)), "x1y2": (("x", 1), ("y", 2)), "x1y1z1": (("x", 1), ("y", 1), ("z", 1))}
+
+    def native(self, ctx, st):
+        lay, sub, rank = st
+        return """from funsor.terms import Subs
+lay, sub = %r, %r
+inputs = OrderedDict((k, Reals[n]) for k, n in lay)
+with Gaussian.set_compression_threshold(1e9):
+    g = Gaussian(white_vec=A['w'], prec_sqrt=A['P'], inputs=inputs)
+    r = Subs(g, tuple((k, Tensor(A['v' + k])) for k in sub))
+pos, pt, xs = 0, {}, []
+for k, n in lay:
+    if k in sub:
+        xs.append(A['v' + k])
+    else:
+        pt[k] = Tensor(A['xa'][pos:pos + n]); xs.append(A['xa'][pos:pos + n]); pos += n
+got = r(**pt) if pt else r
+sys.exit(0 if report(float(np.asarray(got.data)), quad(np.concatenate(xs), A['P'], A['w']), 'substituted density:') else 1)
+""" % (self.LAY[lay], tuple(sub))
 
     def structures(self, tier):
         for lay, items in self.LAY.items():
